@@ -459,13 +459,14 @@ pub fn check_flavour(f: usize, got: &Pairs, model: &BTreeMap<Vec<u8>, Vec<u8>>) 
 }
 
 /// the read-only calls of C15; each returns a complaint only if the call itself misbehaves
-pub const RO_CALLS: [&str; 28] = [
+pub const RO_CALLS: [&str; 29] = [
     "get(present)", "get(absent)", "includes_key(present)", "includes_key(absent)", "len", "is_empty", "bulk_get",
     "iter(full)", "iter_mut(full)", "keys(full)", "values(full)", "into_iter(full)", "iter(partial)", "keys(partial)",
     "count_of_free_key_piece", "count_of_free_value_piece", "key_piece_size_stats", "value_piece_size_stats",
     "key_length_stats", "value_length_stats", "htx_filling_rate_per_mill", "read_fill_buffer", "flush", "sync_all+sync_data",
     "get_string(present+absent)", "bulk_get_string",
     "iter with len()/is_empty() between the steps", "iter with get()/includes_key() between the steps",
+    "iter with a statistics call (through a clone) between the steps",
 ];
 
 pub fn ro_call<T: Kt>(cfg: &ACfg, m: &mut FileDbMap<T>, db: &abyssiniandb::filedb::FileDb, call: usize, model: &BTreeMap<Vec<u8>, Vec<u8>>) -> Option<String> {
@@ -542,8 +543,24 @@ pub fn ro_call<T: Kt>(cfg: &ACfg, m: &mut FileDbMap<T>, db: &abyssiniandb::filed
             let _ = run_flavour(m, 7, n);
             Out::Ok(())
         }
-        _ => {
+        27 => {
             let _ = run_flavour(m, 9, n);
+            Out::Ok(())
+        }
+        _ => {
+            let other = m.clone();
+            let _ = guard_plain(|| {
+                let mut it = m.iter();
+                let mut steps = 0usize;
+                while it.next().is_some() {
+                    let _ = other.htx_filling_rate_per_mill();
+                    let _ = other.count_of_free_key_piece();
+                    steps += 1;
+                    if steps > n + 2 {
+                        break;
+                    }
+                }
+            });
             Out::Ok(())
         }
     };
@@ -882,7 +899,9 @@ impl AWorker {
         if spliced && ok {
             let _ = guard(|| m.get(&key[..]));
             let _ = guard(|| m.is_empty());
-            let _ = run_flavour(&mut m, 0, usize::MAX / 2);
+            // a complete traversal (plain: the size-hint bookkeeping of the iterator oracle is not wanted here)
+            let _ = guard_plain(|| m.iter().count());
+            let _ = guard_plain(|| m.keys().count());
             let _ = guard(|| m.count_of_free_value_piece());
             let _ = guard(|| m.count_of_free_key_piece());
             let _ = guard(|| m.key_length_stats());
